@@ -143,8 +143,10 @@ def c10_entry(tier, replay):
     return 1 if (rc1 or rc2) else 0
 
 def c03_entry(tier, replay):
-    from . import c03mod, c03purge
+    from . import c03mod, c03purge, c03conc
     if replay:
+        if replay.endswith(".json"):
+            return c03conc.run(tier, replay)
         if replay.endswith(".modhist"):
             return c03mod.run(tier, replay)
         if replay.endswith(".purge"):
@@ -159,7 +161,10 @@ def c03_entry(tier, replay):
     rc3 = c03mod.run(tier, None, merge=True)
     if rc3 == 2:
         return 2
-    return 1 if (rc1 or rc2 or rc3) else 0
+    rc4 = c03conc.run(tier, None, merge=True)
+    if rc4 == 2:
+        return 2
+    return 1 if (rc1 or rc2 or rc3 or rc4) else 0
 
 def wire_entry(pid):
     def f(tier, replay):
